@@ -87,6 +87,13 @@ structure InvA (s : State) : Prop where
 
 /-! ### layer B: entries own instances -/
 
+/-- the entry a lookup thread currently holds -/
+def Pc.holds : Pc → Option Ref
+  | .getWaitClose r _ | .waitCloseWait r _ | .loadBegin r | .inLoad r _ | .loadCommit r _ _ | .loadSignal r
+  | .getWaitLoad r | .pickWaitLoad r => some r
+  | _ => none
+
+
 structure EInvB (s : State) (r : Ref) : Prop where
   val_inst : ∀ i, (s.heap r).value = some i →
     i < s.nInst ∧ (s.inst i).ent = r ∧ (s.inst i).id = (s.heap r).id ∧
@@ -105,28 +112,30 @@ structure IInvB (s : State) (i : Inst) : Prop where
   closes : (s.inst i).closes = if (s.inst i).st = .closed then 1 else 0
   no_bad : (s.inst i).badClose = false
 
+/-- what a thread's pc / result says about instances -/
+structure TInvB (s : State) (th : Thread) : Prop where
+  held_id : ∀ r, th.pc.holds = some r → (s.heap r).id = th.op.id
+  ret_val : ∀ i, th.pc = .done (.val i) →
+    i < s.nInst ∧ (s.inst i).st.loaded = true ∧ (s.inst i).id = th.op.id
+  ret_objs : ∀ l i, th.pc = .done (.objs l) → i ∈ l → i < s.nInst ∧ (s.inst i).st.loaded = true
+  commit_live : ∀ r i ab, th.pc = .loadCommit r (some i) ab → (s.inst i).st = .live
+  load_loading : ∀ r i, th.pc = .inLoad r i → (s.inst i).st = .loading
+
 structure InvB (s : State) : Prop where
   ent : ∀ r, r < s.nHeap → EInvB s r
   ins : ∀ i, i < s.nInst → IInvB s i
-  ret : ∀ t, t < s.nThr → ∀ i,
-    ((s.thr t).pc = .done (.val i) → i < s.nInst ∧ (s.inst i).st.loaded = true ∧ (s.inst i).id = (s.thr t).op.id) ∧
-    (∀ l, (s.thr t).pc = .done (.objs l) → i ∈ l → i < s.nInst ∧ (s.inst i).st.loaded = true)
+  thr : ∀ t, t < s.nThr → TInvB s (s.thr t)
 
 /-! ### layer C: staleness -/
 
-/-- the entry a lookup thread currently holds -/
-def Pc.holds : Pc → Option Ref
-  | .getWaitClose r _ | .waitCloseWait r _ | .loadBegin r | .inLoad r _ | .loadCommit r _ _ | .loadSignal r
-  | .getWaitLoad r | .pickWaitLoad r => some r
-  | _ => none
+structure TInvC (s : State) (th : Thread) : Prop where
+  stale_closed : ∀ i, i ∈ th.stale → i < s.nInst ∧ (s.inst i).st = .closed
+  held_fresh : ∀ r i, th.pc.holds = some r → (s.heap r).value = some i → i ∉ th.stale
+  ret_val : ∀ i, th.pc = .done (.val i) → i ∉ th.stale
+  ret_objs : ∀ l i, th.pc = .done (.objs l) → i ∈ l → i ∉ th.stale
 
 structure InvC (s : State) : Prop where
-  stale_closed : ∀ t, t < s.nThr → ∀ i, i ∈ (s.thr t).stale → (s.inst i).st = .closed
-  held_fresh : ∀ t, t < s.nThr → ∀ r i, (s.thr t).pc.holds = some r → (s.heap r).value = some i →
-    i ∉ (s.thr t).stale
-  ret_fresh : ∀ t, t < s.nThr → ∀ i,
-    ((s.thr t).pc = .done (.val i) → i ∉ (s.thr t).stale) ∧
-    (∀ l, (s.thr t).pc = .done (.objs l) → i ∈ l → i ∉ (s.thr t).stale)
+  thr : ∀ t, t < s.nThr → TInvC s (s.thr t)
 
 /-! ### layer D: the thread that runs `Close()` -/
 
